@@ -34,6 +34,11 @@ class Tr:
             return node.id
         if isinstance(node, ast.Attribute) and isinstance(node.value, ast.Name) and node.value.id == 'self':
             return node.attr
+        if isinstance(node, ast.Attribute) and isinstance(node.value, ast.Attribute) and isinstance(node.value.value, ast.Name) \
+                and node.value.value.id == 'self':
+            return f'{node.value.attr}_{node.attr}'        # self.loader.block_dims -> loader_block_dims
+        if isinstance(node, ast.Attribute) and isinstance(node.value, ast.Name):
+            return f'{node.value.id}_{node.attr}'          # geom.xlines -> geom_xlines
         if isinstance(node, ast.Subscript):
             idx = node.slice
             if isinstance(idx, ast.Constant) and isinstance(idx.value, int):
@@ -69,6 +74,12 @@ class Tr:
                 return f'((Int.natAbs {self.expr(a[0])} : Nat) : Int)' if self.ty == 'Int' else self.expr(a[0])
             if f in ('min', 'max') and len(a) == 2:
                 return f'({f} {self.expr(a[0])} {self.expr(a[1])})'
+            if f == 'len' and len(a) == 1 and self.ref(a[0]) is not None:
+                r = 'len_' + self.ref(a[0])
+                self.params.add(r)
+                return r
+            if f == 'pad' and len(a) == 2:                   # utils.pad, translated above as Gen.pad
+                return f'(pad {self.expr(a[0])} {self.expr(a[1])})'
             raise TranslationError(f'call of {f}')
         if isinstance(e, ast.Compare):
             parts, left = [], e.left
@@ -175,6 +186,21 @@ def _select(fn, sel):
         if part is None:
             raise TranslationError(f'slice without {sel[4]} bound')
         return part
+    if sel[0] == 'ifassign':
+        # ('ifassign', target, nth): the test of the if statement whose body assigns `target`
+        hits = [n for n in ast.walk(fn) if isinstance(n, ast.If) and any(
+            isinstance(b, ast.Assign) and len(b.targets) == 1 and isinstance(b.targets[0], ast.Name)
+            and b.targets[0].id == sel[1] for b in n.body)]
+        hits.sort(key=lambda n: (n.lineno, n.col_offset))
+        if len(hits) <= sel[2]:
+            raise TranslationError(f'if assigning {sel[1]} #{sel[2]} not found')
+        return hits[sel[2]].test
+    if sel[0] == 'iftest':
+        hits = [n for n in ast.walk(fn) if isinstance(n, ast.If)]
+        hits.sort(key=lambda n: (n.lineno, n.col_offset))
+        if len(hits) <= sel[1]:
+            raise TranslationError(f'if #{sel[1]} not found')
+        return hits[sel[1]].test
     if sel[0] == 'guard':
         # ('guard', nth): the condition X of the nth `if not X: raise ...`
         hits = [n for n in ast.walk(fn) if isinstance(n, ast.If) and isinstance(n.test, ast.UnaryOp)
@@ -257,6 +283,34 @@ SPEC = [
     ('trace_index_il', 'read.py', 'SgzReader.get_trace', ('subscript', 'chunk', 1, 0, 'index'), 'Nat'),
     ('trace_index_xl', 'read.py', 'SgzReader.get_trace', ('subscript', 'chunk', 1, 1, 'index'), 'Nat'),
     ('trace_crop_lo', 'read.py', 'SgzReader.get_trace', ('subscript', 'chunk', 1, 2, 'lower'), 'Nat'),
+    # cropping.py
+    ('crop_lo_aligned', 'cropping.py', 'SgzCropper.correct_bounds', ('assign', 'new_index_0', 0), 'Nat'),
+    ('crop_hi_aligned', 'cropping.py', 'SgzCropper.correct_bounds', ('assign', 'new_index_1', 0), 'Nat'),
+    ('crop_lo_clipped', 'cropping.py', 'SgzCropper.correct_bounds', ('assign', 'new_index_0', 1), 'Nat'),
+    ('crop_hi_clipped', 'cropping.py', 'SgzCropper.correct_bounds', ('assign', 'new_index_1', 1), 'Nat'),
+    ('crop_bad_il', 'cropping.py', 'SgzCropper.check_and_correct_bounds', ('iftest', 5), 'Prop'),
+    ('crop_bad_xl', 'cropping.py', 'SgzCropper.check_and_correct_bounds', ('iftest', 6), 'Prop'),
+    ('crop_bad_z', 'cropping.py', 'SgzCropper.check_and_correct_bounds', ('iftest', 7), 'Prop'),
+    ('crop_empty', 'cropping.py', 'SgzCropper.check_and_correct_bounds', ('iftest', 8), 'Prop'),
+    ('crop_z_units', 'cropping.py', 'SgzCropper.write_cropped_file_by_indexes', ('assign', 'z_units', 0), 'Nat'),
+    ('crop_xl_units', 'cropping.py', 'SgzCropper.write_cropped_file_by_indexes', ('assign', 'xl_units', 0), 'Nat'),
+    ('crop_il_units', 'cropping.py', 'SgzCropper.write_cropped_file_by_indexes', ('assign', 'il_units', 0), 'Nat'),
+    ('crop_block_id', 'cropping.py', 'SgzCropper.write_cropped_file_by_indexes', ('assign', 'block_id', 0), 'Nat'),
+    ('crop_block_offset', 'cropping.py', 'SgzCropper.write_cropped_file_by_indexes', ('callarg', '_get_compressed_bytes', 0, 0), 'Nat'),
+    ('crop_array_bytes', 'cropping.py', 'SgzCropper.regenerate_header', ('callarg', 'int_to_bytes', 4, 0), 'Nat'),
+    # conversion.py: re-blocker
+    ('reblock_last_il', 'conversion.py', 'SgzConverter.convert_to_adv_sgz', ('ifassign', 'i_count', 0), 'Prop'),
+    ('reblock_i_count', 'conversion.py', 'SgzConverter.convert_to_adv_sgz', ('assign', 'i_count', 0), 'Nat'),
+    ('reblock_last_xl', 'conversion.py', 'SgzConverter.convert_to_adv_sgz', ('ifassign', 'x_count', 0), 'Prop'),
+    ('reblock_x_count', 'conversion.py', 'SgzConverter.convert_to_adv_sgz', ('assign', 'x_count', 0), 'Nat'),
+    # conversion_utils.py: producers
+    ('producer_last_set', 'conversion_utils.py', 'seismic_file_producer', ('ifassign', 'planes_to_read', 0), 'Prop'),
+    ('producer_planes', 'conversion_utils.py', 'seismic_file_producer', ('assign', 'planes_to_read', 0), 'Nat'),
+    ('producer_sets', 'conversion_utils.py', 'seismic_file_producer', ('assign', 'n_plane_sets', 0), 'Nat'),
+    ('io_start_trace', 'conversion_utils.py', 'io_thread_func', ('assign', 'start_trace', 0), 'Nat'),
+    ('io_t_store', 'conversion_utils.py', 'io_thread_func', ('assign', 't_store', 0), 'Nat'),
+    ('io_t_xl', 'conversion_utils.py', 'io_thread_func', ('tuple', 't_xl', 0), 'Nat'),
+    ('io_t_il', 'conversion_utils.py', 'io_thread_func', ('tuple', 't_il', 0), 'Nat'),
     # loader.py, 2D
     ('trace_range_offset', 'loader.py', 'SgzLoader2d.read_and_decompress_trace_range', ('assign', 'block_offset', 0), 'Nat'),
     ('trace_range_length', 'loader.py', 'SgzLoader2d.read_and_decompress_trace_range', ('callarg', '_get_compressed_bytes', 0, 1), 'Nat'),
